@@ -19,6 +19,7 @@ pub fn dispatch(cmd: &str) -> Option<Handler> {
     Some(match cmd {
         "cfg" => cfg_cmd,
         "diag" => diag_cmd,
+        "rerun" => rerun_cmd,
         _ => return None,
     })
 }
@@ -245,4 +246,52 @@ fn diag_cmd(a: &[&str]) -> String {
     }
     out.push("END".to_string());
     out.join(" ")
+}
+
+/// `rerun <seq> <store> <base>`: after the standard pipeline, apply the extra pass runs named by
+/// `seq` (a = AvailableValuePass, e = EcallTerminationPass, l = LivenessPass) and report whether
+/// any fact, edge or diagnostic changed ("SAME" / "CHANGED after <k> <first difference>").
+fn rerun_cmd(a: &[&str]) -> String {
+    let seq = a[0];
+    let (reader, nodes, _errs) = run_parse(&a[1..]);
+    let mut cfg = match Manager::gen_full_cfg(nodes) {
+        Ok(c) => c,
+        Err(e) => return format!("{} END", show_cfg_error(&reader, &e)),
+    };
+    let strip = |s: String| -> String {
+        // u_def is an internal helper of the liveness pass that no lint reads; it is reported
+        // separately (UDEF) and not counted as a fact
+        s.split(' ').filter(|w| !w.starts_with("ud=")).collect::<Vec<_>>().join(" ")
+    };
+    let diags = |cfg: &Cfg| -> String {
+        let mut dm = riscv_analysis::passes::DiagnosticManager::new();
+        Manager::run_diagnostics(cfg, &mut dm);
+        let mut v: Vec<String> = dm.iter().map(|x| show_item(&reader, &DiagnosticItem::from_displayable(x.as_ref()))).collect();
+        v.sort();
+        v.join(" ")
+    };
+    let before = strip(dump(&reader, &cfg));
+    let before_full = dump(&reader, &cfg);
+    let before_d = diags(&cfg);
+    for (k, ch) in seq.chars().enumerate() {
+        let r = match ch {
+            'a' => AvailableValuePass::run(&mut cfg),
+            'e' => EcallTerminationPass::run(&mut cfg),
+            'l' => LivenessPass::run(&mut cfg),
+            _ => Ok(()),
+        };
+        if let Err(e) = r {
+            return format!("ERROR after {} {} END", k, show_cfg_error(&reader, &e));
+        }
+        let now = strip(dump(&reader, &cfg));
+        if now != before {
+            let (x, y) = before.split(") ").zip(now.split(") ")).find(|(x, y)| x != y).unwrap_or(("", ""));
+            return format!("CHANGED after {} [{}] was [{}] END", k, y, x);
+        }
+        let d = diags(&cfg);
+        if d != before_d {
+            return format!("DIAGS-CHANGED after {} END", k);
+        }
+    }
+    if dump(&reader, &cfg) == before_full { "SAME END".to_string() } else { "SAME UDEF-CHANGED END".to_string() }
 }
